@@ -60,6 +60,11 @@ Definition ds_minus_dv (dim : nat) (e : edge K) : bool :=
   forallb (fun k => reqb K (comp k e) (ropp K (comp (dim + k) e))) (seq 0 dim).
 
 (* structural check of a tracer pair chain X = Nsw ++ Nex against the bare vacancy network NY *)
+(* solute-site map q: the solute stays on swing edges, solute and vacancy swap sites on exchange edges *)
+Definition qstructb (Nsw Nex : net K) (p q : list nat) : bool :=
+  forallb (fun e => Nat.eqb (permfun q (src e)) (permfun q (dst e))) Nsw &&
+  forallb (fun e => Nat.eqb (permfun q (src e)) (permfun p (dst e)) && Nat.eqb (permfun q (dst e)) (permfun p (src e))) Nex.
+
 Definition tracer_check (dim nX nY kfib : nat) (Nsw Nex NY : net K) (p : list nat) (gam : list (list K)) : bool :=
   let NX := Nsw ++ Nex in
   let pf := permfun p in
@@ -71,5 +76,5 @@ Definition tracer_check (dim nX nY kfib : nat) (Nsw Nex NY : net K) (p : list na
   forallb (ds_zero dim) Nsw && forallb (ds_minus_dv dim) Nex.
 
 End TracerCheck.
-Arguments tracer_check {K} _ _ _ _ _ _ _ _ _.
+Arguments tracer_check {K} _ _ _ _ _ _ _ _ _. Arguments qstructb {K} _ _ _ _.
 Arguments ds_zero {K} _ _. Arguments ds_minus_dv {K} _ _.
